@@ -254,3 +254,36 @@ ax("mdepth-empty", L.FA(sq, z3.Implies(L.len_(sq) == 0, mdepth(sq) == 0), [mdept
 @spec("flat_")
 def _flat_spec(ip, a, kw):
     return ZV(flat(as_v(a[0])), "seq")
+
+# ---- class hierarchy as RewriteMostSpecificCommonBase walks it: __bases__, functools.reduce
+bases_of = declare_pred("bases_of", L.V, L.V, tag="Seq[Ty]")
+cdepth = declare_pred("cdepth", L.V, L.I)             # length of the longest base chain above a class (the hierarchy is well founded)
+ax("bases-classes", L.FA([c, i], z3.Implies(z3.And(TY.is_class(c), 0 <= i, i < L.len_(bases_of(c))),
+                                             z3.And(kind(L.nth(bases_of(c), i)) == K["Class"], cdepth(L.nth(bases_of(c), i)) < cdepth(c))), [L.nth(bases_of(c), i)]))
+# instances of a class are instances of its bases (also for TypedDict classes, whose base is dict)
+ax("bases-super", L.FA([c, i, v], z3.Implies(z3.And(TY.is_class(c), 0 <= i, i < L.len_(bases_of(c)), mem(v, c)), mem(v, L.nth(bases_of(c), i))),
+                       [(mem(v, c), L.nth(bases_of(c), i))]))
+ax("cdepth-nonneg", L.FA(c, cdepth(c) >= 0, [cdepth(c)]))
+
+
+def _bases_attr(ip, r):
+    ip.partial(TY.is_class(r.term), "AttributeError", None, "__bases__")
+    return ZV(bases_of(r.term), "Seq[Ty]")
+
+
+R.ATTRS[("Ty", "__bases__")] = _bases_attr
+
+
+def _reduce(ip, a, kw, node):
+    """functools.reduce(f, seq) without initial value: TypeError on an empty sequence, otherwise a fold with the invariant `loops["reduce0"]`."""
+    if len(a) != 2:
+        raise Unsupported("functools.reduce with an initial value")
+    f, seq = a
+    sv = ip.seq_of(seq)
+    line = getattr(node, "lineno", 0)
+    ip.partial(L.len_(sv.term) >= 1, "TypeError", node, "reduce-empty")
+    init = ip.retag(L.nth(sv.term, z3.IntVal(0)), ip.elem_tag(sv))
+    return ip.fold_symbolic("reduce0", sv, init, lambda acc, x: ip.call_value(f, [acc, x], {}, node), line)
+
+
+R.EXTERNALS["functools.reduce"] = R.ExtFn(_reduce)
